@@ -7,7 +7,7 @@ git -C $MX/repo checkout -q -- . ; git -C $MX/repo checkout -q --detach $(git -C
 export BPV_REPO=$MX/repo BPV_WORK=$MX/work BPV_EVID=$MX/evidence
 mkdir -p $BPV_WORK $BPV_EVID
 RC=0
-for P in $ROOT/selftest/benign/*.patch; do
+for P in $ROOT/selftest/benign/*.patch $ROOT/selftest/benign_ext/*.patch; do
   cd $MX/repo && git checkout -q -- . && git apply $P || { echo "$(basename $P) APPLY-FAILED"; RC=1; continue; }
   OUT=$(cd $ROOT && ./bpv all 2>&1)
   BAD=$(echo "$OUT" | grep "^\[C" | grep -v "violations=0" | awk '{print $1}' | tr '\n' ' ')
